@@ -16,6 +16,7 @@ CONSTANTS
   EmitEvery = 20
   Faults = {}
   WithBind = TRUE
+  MaxNow = 0
   WithBridge = FALSE
 INVARIANTS Emit NoViolation
 CHECK_DEADLOCK FALSE
